@@ -2,7 +2,7 @@
    Statements only; proofs in Proofs/GovFacts.v and Proofs/GovWorld.v. *)
 From Coq Require Import String List NArith Lia Bool.
 From Ax Require Import Lib.Bytes Lib.Mvx Model.Check Model.Env Model.Gateway Model.Governance
-     Proofs.GovFacts Proofs.GovWorld Gen.Generated.
+     Proofs.GovFacts Proofs.GovWorld Proofs.GovCredits Gen.Generated.
 Import ListNotations.
 Open Scope N_scope.
 
@@ -50,12 +50,28 @@ Section C16.
     | _ => gv_refunds (w_gov (fst (step w o))) = gv_refunds (w_gov w)
     end.
   Proof. exact (refunds_frame H verify). Qed.
+
+  (* every operation, every caller, every schedule: the credit of (u, tok, nonce) moves by exactly what the
+     callback of a failed dispatch by u credits and what a successful withdrawal by u takes *)
+  Theorem c16_credits_step : forall w o u tok nonce,
+    refund_of (w_gov (fst (step w o))) u tok nonce + withdrawn_by H verify w o u tok nonce =
+    refund_of (w_gov w) u tok nonce + credited_by w o u tok nonce.
+  Proof. exact (credits_step H verify). Qed.
+  (* every history: outstanding credit = initial credit + attached to failed dispatches - withdrawn *)
+  Theorem c16_credits_history : forall os w u tok nonce,
+    refund_of (w_gov (vrun H verify true w os)) u tok nonce + total_withdrawn H verify w os u tok nonce =
+    refund_of (w_gov w) u tok nonce + total_credited H verify w os u tok nonce.
+  Proof. exact (credits_history H verify). Qed.
+  Theorem c16_withdrawn_owner_only : forall w c t n u tok nonce,
+    x_caller c <> u -> withdrawn_by H verify w (VWithdrawRefund c t n) u tok nonce = 0.
+  Proof. exact (withdrawn_owner_only H verify). Qed.
 End C16.
 
 Print Assumptions c16_credit.
 Print Assumptions c16_callback_credits.
 Print Assumptions c16_withdraw.
 Print Assumptions c16_frame.
+Print Assumptions c16_credits_history.
 
 Example pin_gov_token : gen_gov_EgldOrEsdtToken_fields = ["token_identifier"; "token_nonce"]%string := eq_refl.
 Example pin_gov_refund_storage : In "refund_token"%string gen_gov_storage.
@@ -72,3 +88,4 @@ Proof. vm_compute. reflexivity. Qed.
 
 Check c16_callback_credits.
 Check c16_frame.
+Check c16_credits_history.
